@@ -282,6 +282,11 @@ def poison_corpus():
         sc = scenario("poison-" + name, healthy, family="poison-" + name)
         sc["script"] = [{"op": "raw", "body": body}]
         out.append(sc)
+    # bodies that are not UTF-8 at all (another encoding, compressed / binary data)
+    for name, raw in (("latin1-json", '{"data": "caf\u00e9"}'.encode("latin-1")), ("utf16-json", '{"data": {}}'.encode("utf-16")), ("binary", b"\x1f\x8b\x08\x00\xfe\xff\x80\x81")):
+        sc = scenario("poison-" + name, healthy, family="poison-" + name)
+        sc["script"] = [{"op": "raw", "body_hex": raw.hex()}]
+        out.append(sc)
     return out
 
 # ------------------------------------------------------------------------------------------------------
